@@ -173,8 +173,10 @@ fn apply_delta(py: Python, py_src_buf: Py<PyAny>, py_delta: Py<PyAny>) -> PyResu
 
     let dest_size = get_delta_header_size(delta.as_ref(), &mut index, delta_len)
         .map_err(ApplyDeltaError::new_err)?;
-    let mut out = vec![0; dest_size];
-    let mut outindex = 0;
+    // The declared size comes from untrusted input: never allocate it up front,
+    // let the output grow with the data that is actually copied.
+    let mut out: Vec<u8> =
+        Vec::with_capacity(std::cmp::min(dest_size, src_buf_len.saturating_add(delta_len)));
 
     while index < delta_len {
         let cmd = delta[index];
@@ -214,30 +216,22 @@ fn apply_delta(py: Python, py_src_buf: Py<PyAny>, py_delta: Py<PyAny>) -> PyResu
             if cp_size > src_size
                 || cp_off > src_size
                 || cp_off > src_size - cp_size
-                || cp_size > dest_size
-                || outindex > dest_size - cp_size
+                || cp_size > dest_size - out.len()
             {
                 break;
             }
 
-            out[outindex..outindex + cp_size].copy_from_slice(&src_buf[cp_off..cp_off + cp_size]);
-            outindex += cp_size;
+            out.extend_from_slice(&src_buf[cp_off..cp_off + cp_size]);
         } else if cmd != 0 {
-            if (cmd as usize) > dest_size {
-                break;
-            }
-
             // Raise ApplyDeltaError if there are more bytes to copy than space
-            if outindex + cmd as usize > dest_size {
+            if cmd as usize > dest_size - out.len() {
                 return Err(ApplyDeltaError::new_err("Not enough space to copy"));
             }
             if index + cmd as usize > delta_len {
                 return Err(ApplyDeltaError::new_err("delta not empty"));
             }
 
-            out[outindex..outindex + cmd as usize]
-                .copy_from_slice(&delta[index..index + cmd as usize]);
-            outindex += cmd as usize;
+            out.extend_from_slice(&delta[index..index + cmd as usize]);
             index += cmd as usize;
         } else {
             return Err(ApplyDeltaError::new_err("Invalid opcode 0"));
@@ -248,7 +242,7 @@ fn apply_delta(py: Python, py_src_buf: Py<PyAny>, py_delta: Py<PyAny>) -> PyResu
         return Err(ApplyDeltaError::new_err("delta not empty"));
     }
 
-    if outindex != dest_size {
+    if out.len() != dest_size {
         return Err(ApplyDeltaError::new_err("dest size incorrect"));
     }
 
